@@ -254,18 +254,22 @@ fn main() {
                         for t in p.tokens() {
                             let want = orig.lookup_token(t.get_src_line(), t.get_src_col());
                             let got = c.lookup_token(t.get_dst_line(), t.get_dst_col()).filter(|g| g.get_dst_line() == t.get_dst_line() && g.get_dst_col() == t.get_dst_col());
+                            // a token without a source is "unmapped", like no token at all (target_of in contracts/chain.spec)
                             let same = match (&want, &got) {
-                                (Some(a), Some(b)) => a.get_src_line() == b.get_src_line() && a.get_src_col() == b.get_src_col() && a.get_source() == b.get_source() && a.get_name() == b.get_name(),
+                                (Some(a), Some(b)) if a.has_source() => a.get_src_line() == b.get_src_line() && a.get_src_col() == b.get_src_col() && a.get_source() == b.get_source() && a.get_name() == b.get_name(),
+                                (Some(_), Some(b)) => !b.has_source(),
+                                (Some(a), None) => !a.has_source(),
+                                (None, Some(b)) => !b.has_source(),
                                 (None, None) => true,
-                                _ => false,
                             };
                             // the same question asked the way a consumer asks it: plain lookup_token (greatest lower bound), no exact-token filter
                             let got_glb = c.lookup_token(t.get_dst_line(), t.get_dst_col());
                             let same_glb = match (&want, &got_glb) {
-                                (Some(a), Some(b)) => a.get_src_line() == b.get_src_line() && a.get_src_col() == b.get_src_col() && a.get_source() == b.get_source() && a.get_name() == b.get_name(),
-                                (None, None) => true,
+                                (Some(a), Some(b)) if a.has_source() => a.get_src_line() == b.get_src_line() && a.get_src_col() == b.get_src_col() && a.get_source() == b.get_source() && a.get_name() == b.get_name(),
+                                (Some(_), Some(b)) => !b.has_source(),
+                                (Some(a), None) => !a.has_source(),
                                 (None, Some(b)) => !b.has_source(),
-                                _ => false,
+                                (None, None) => true,
                             };
                             if !same_glb && composition_glb_mismatch.is_none() {
                                 composition_glb_mismatch = Some(format!("generated {}:{} want {:?} got {:?}", t.get_dst_line(), t.get_dst_col(),
